@@ -1,0 +1,88 @@
+//go:build verif
+
+// Contracts for the quadratic / quartic extensions of this small field (comment-only; installed by /verif/gcv
+// gen-contracts). Layer "ring T": values of type T are elements of an abstract commutative ring; the methods of T
+// are interpreted by the ring operation their own (lower-layer) contract states.
+//   E2 = F[u]/(u^2 - 7)          E4 = E2[v]/(v^2 - u)
+// qmul(nr, a, b) is the schoolbook product of coordinate vectors reduced by X^k = nr, computed by the tool.
+
+package extensions
+
+// ---------------- E2 over F ----------------
+
+//@ func E2.Add
+//@ layer ring goldilocks.Element
+//@ ensures[value] vec(z) == vadd(old(vec(x)), old(vec(y)))
+//@ ensures[result] result == z
+//@ modifies z
+//@ end
+
+//@ func E2.Sub
+//@ layer ring goldilocks.Element
+//@ ensures[value] vec(z) == vsub(old(vec(x)), old(vec(y)))
+//@ ensures[result] result == z
+//@ modifies z
+//@ end
+
+//@ func E2.Double
+//@ layer ring goldilocks.Element
+//@ ensures[value] vec(z) == vscale(2, old(vec(x)))
+//@ ensures[result] result == z
+//@ modifies z
+//@ end
+
+//@ func E2.Neg
+//@ layer ring goldilocks.Element
+//@ ensures[value] vec(z) == vscale(-1, old(vec(x)))
+//@ ensures[result] result == z
+//@ modifies z
+//@ end
+
+//@ func E2.Conjugate
+//@ layer ring goldilocks.Element
+//@ ensures[value] vec(z) == vconj2(old(vec(x)))
+//@ ensures[result] result == z
+//@ modifies z
+//@ end
+
+//@ func E2.MulByElement
+//@ layer ring goldilocks.Element
+//@ ensures[value] vec(z) == vscale(old(*y), old(vec(x)))
+//@ ensures[result] result == z
+//@ modifies z
+//@ end
+
+//@ func E2.Mul
+//@ layer ring goldilocks.Element
+//@ ensures[value] vec(z) == qmul(7, old(vec(x)), old(vec(y)))
+//@ ensures[result] result == z
+//@ modifies z
+//@ end
+
+//@ func E2.Square
+//@ layer ring goldilocks.Element
+//@ ensures[value] vec(z) == qsq(7, old(vec(x)))
+//@ ensures[result] result == z
+//@ modifies z
+//@ end
+
+//@ func E2.MulByNonResidue
+//@ layer ring goldilocks.Element
+//@ ensures[value] vec(z) == qmul(7, svec(2, 1, 1), old(vec(x)))
+//@ ensures[result] result == z
+//@ modifies z
+//@ end
+
+//@ func E2.Inverse
+//@ layer ring goldilocks.Element
+//@ option distribute
+//@ ensures[inverse] qmul(7, vec(z), old(vec(x))) == svec(2, 0, qnorm(7, old(vec(x))) * inv(qnorm(7, old(vec(x)))))
+//@ ensures[result] result == z
+//@ modifies z
+//@ end
+
+//@ func E2.norm
+//@ layer ring goldilocks.Element
+//@ ensures[value] *x == qnorm(7, vec(z))
+//@ modifies x
+//@ end
